@@ -554,7 +554,7 @@ func collectNilTests(w *World, v ssa.Value, truth bool, out map[string]string, i
 
 func ruleExpiryRemoves(c *Ctx, rule string) {
 	w := c.W
-	c.Rule(rule, "the closure armed by Permission.start unconditionally calls p.allocation.RemovePermission(p.Addr) for its own p, and RemovePermission deletes key FingerprintAddr(addr) from the receiver's permissions; the closure armed by ChannelBind.start calls c.allocation.RemoveChannelBind(c.Number), and RemoveChannelBind removes an element only on the Number == number edge and does remove one when it exists", 4)
+	c.Rule(rule, "the closure armed by Permission.start unconditionally calls p.allocation.RemovePermission(p.Addr) for its own p, and RemovePermission deletes key FingerprintAddr(addr) from the receiver's permissions; RemovePermission / RemoveChannelBind are called only from the entry's own expiry closure and from Allocation.Close; the closure armed by ChannelBind.start calls c.allocation.RemoveChannelBind(c.Number), and RemoveChannelBind removes an element only on the Number == number edge and does remove one when it exists", 4)
 	afterFunc := timeAfterFunc(w)
 	type spec struct {
 		typ, remover, field string
@@ -595,6 +595,35 @@ func ruleExpiryRemoves(c *Ctx, rule string) {
 			c.OK(rule, fname(closure), s.typ+" expiry closure", w.pos(closure.Pos()), "unconditionally calls recv.allocation."+s.remover+"(recv."+s.field+")")
 		} else {
 			c.Bad(rule, fname(closure), s.typ+" expiry closure", w.pos(closure.Pos()), why)
+		}
+	}
+	// who may remove: an entry leaves its table only through its own expiry timer or the
+	// allocation's teardown — no other code path may cut a lifetime short
+	for _, s := range []spec{{"Permission", "RemovePermission", "Addr"}, {"ChannelBind", "RemoveChannelBind", "Number"}} {
+		remover := w.Func("allocation", "Allocation", s.remover)
+		start := w.Func("allocation", s.typ, "start")
+		closeFn := w.Func("allocation", "Allocation", "Close")
+		c.Anchor(rule, s.remover+" callers")
+		bad := ""
+		n := 0
+		for _, cs := range w.callsTo(remover) {
+			caller := cs.Parent()
+			if caller.Synthetic != "" {
+				continue
+			}
+			n++
+			if w.withinBody(caller, start) || w.withinBody(caller, closeFn) {
+				continue
+			}
+			bad = s.remover + " is called from " + fname(caller) + " at " + w.instrPos(cs) + ": a " + s.typ + " can be removed before its own timeout by something other than its expiry timer or the allocation's teardown"
+		}
+		if bad == "" && n >= 2 {
+			c.OK(rule, fname(remover), s.remover+" callers", w.pos(remover.Pos()), fmt.Sprintf("%d callers: the %s expiry closure and Allocation.Close", n, s.typ))
+		} else {
+			if bad == "" {
+				bad = fmt.Sprintf("only %d callers of %s (expiry closure and teardown expected)", n, s.remover)
+			}
+			c.Bad(rule, fname(remover), s.remover+" callers", w.pos(remover.Pos()), bad)
 		}
 	}
 	// RemovePermission deletes FingerprintAddr(addr)
